@@ -160,7 +160,8 @@ class DnsRecordDnskey(ParsableBase, Serializable):
     def parse_key(cls, parsable, dnssec_algorithm):
         key_parser = ParserBinary(parsable)
 
-        public_key_type = dnssec_algorithm.value.algorithm.value.key_type
+        algorithm = dnssec_algorithm.value.algorithm
+        public_key_type = None if algorithm is None else getattr(algorithm.value, 'key_type', None)
         if public_key_type == Authentication.RSA:
             public_key = cls._parse_public_key_rsa(key_parser)
         elif public_key_type in [Authentication.ECDSA, Authentication.GOST_R3410_01]:
@@ -170,7 +171,7 @@ class DnsRecordDnskey(ParsableBase, Serializable):
         elif public_key_type == Authentication.DSS:
             public_key = cls._parse_public_key_dss(key_parser)
         else:
-            raise NotImplementedError(dnssec_algorithm)
+            raise InvalidValue(dnssec_algorithm, cls, 'algorithm')
 
         return public_key
 
